@@ -2,6 +2,7 @@
 EXTENDS Pool
 MC_Tasks == 1..3
 MC_Children == [t \in 1..3 |-> IF t = 1 THEN <<3>> ELSE <<>>]
+MC_Needs == [t \in 1..3 |-> IF t = 2 THEN {3} ELSE {}]
 MC_Clients == {"c1"}
-MC_Script == [c \in {"c1"} |-> << [op |-> "set", n |-> 2, wait |-> FALSE], [op |-> "add", t |-> 1], [op |-> "add", t |-> 2] >>]
+MC_Script == [c \in {"c1"} |-> << [op |-> "set", t |-> 0, n |-> 2, wait |-> FALSE], [op |-> "add", t |-> 1, n |-> 0, wait |-> FALSE], [op |-> "add", t |-> 2, n |-> 0, wait |-> FALSE] >>]
 ====
